@@ -46,6 +46,19 @@ def check(F, rep, tier):
             g = g[0]; n_proc += 1; rep.fn_seen(g)
             nexts = [(bi, t) for bi, t in g.calls() if (mir.callee(t) or "").endswith("as std::iter::Iterator>::next")]
             short = pat.split("::")[0] + "::process_" + nm
+            if len(nexts) == 0:
+                # an iterator pipeline consumed by for_each / try_for_each / fold / collect: order-preserving unless reversed or sorted
+                cons = [(bi, t) for bi, t in g.calls() if any((mir.callee(t) or "").endswith(x) for x in ("Iterator::for_each", "Iterator::try_for_each", "Iterator::fold", "Iterator::try_fold", "Iterator::collect"))]
+                names = [mir.callee(t) or "" for bi, t in g.calls()]
+                reorder = [c for c in names if any(c.endswith(x) for x in ("Iterator::rev", "::sort", "::sort_by", "::sort_by_key", "::sort_unstable", "::reverse", "Iterator::max_by", "Iterator::min_by"))]
+                over_param = any((c.endswith("::iter") or c.endswith("::into_iter")) and any(o.kind == "param" and o.data == 2 for o in mir.trace_op(g, t[2][0])) for (bi, t), c in zip(list(g.calls()), names))
+                if len(cons) == 1 and over_param and not reorder:
+                    rep.ok("R06.1", "%s: one front-to-back iterator pipeline over `components`, consumed by %s" % (short, (mir.callee(cons[0][1]) or "").rsplit("::", 1)[-1]), nontrivial_key="order:" + short)
+                elif reorder:
+                    rep.bad("R06.1", "schema-order:" + short, "%s re-orders the section's components (%s)" % (short, [c.rsplit("::", 1)[-1] for c in reorder]), g.where())
+                else:
+                    rep.undecided("R06.1", "schema-order-shape:" + short, "%s walks its components in a form this rule does not evaluate" % short, g.where())
+                continue
             if len(nexts) != 1:
                 rep.bad("R06.1", "schema-order:" + short, "%s has %d iterator loops, expected one walk over the section's components" % (short, len(nexts)), g.where()); continue
             nb, nt = nexts[0]
